@@ -192,7 +192,9 @@ PROPS = {
         jobs=jobs_c01, tv=('front', 'pipe', 'list'), deadline={'quick': 1500, 'thorough': 6000}, cli=True, covers_optional={t: C20_COVERS for t in ('quick', 'thorough')},
         explanation='No feasible path reaches a panic terminator (overflow checks on), a panicking std model call (slice/str index, unwrap, '
                     'replace_range, explicit panic!) or the step budget: tokenize, element_parser::parse on every tag token and parser::parse '
-                    'on every valid UTF-8 source of N bytes for the delimiter pool and for symbolic delimiters; tag bodies U(N).',
+                    'on every valid UTF-8 source of N bytes for the delimiter pool and for symbolic delimiters; tag bodies U(N); clean / list / list_all (both formats) on the '
+                    'structural, junk and wrapper-line templates, on a sample of template x transformer combinations, on the large fixed documents and under odd-string '
+                    'configurations; is_removal on `to` values made of a prefix + U(k) + suffix and on DST-gap times under four process time zones; the C20 option sets (exit status 0).',
         assumptions=COMMON_ASSUME),
     'C02': dict(jobs=jobs_pipe('C02'), tv=('front', 'pipe'), assumptions=PIPE_ASSUME, covers_optional={t: CROSS_OPTIONAL for t in ('quick', 'thorough')},
                 explanation='Real chiritori::clean (registry, strategy order, formatter set as wired in chiritori.rs) on documents with symbolic holes. '
